@@ -19,6 +19,9 @@ class QueueingCounterContext(AbstractHashQueueContext):
 
         event_start = event["ts"]
         event_end = event["ts"]+event["dur"]
+        if event_end <= event_start:
+            # an empty interval is never in flight: it must not add breakpoints (two samples at one time)
+            return []
 
         aiulog.log(aiulog.TRACE, "QCC: adding event: ", (event_start, event_end))
         # update all queue entries based on the event timestamps
